@@ -208,4 +208,123 @@ theorem dayChecked_of_valid (y m d : Int) (h : Valid y m d) (hy : y ≤ 200000) 
   simp [this]
 
 
+/-! ## the successor structure: `day` steps by one along `nextDate`, hence `date` inverts `day` on every `s ≥ 1` -/
+
+theorem nextDate_valid (y m d : Int) (h : Valid y m d) :
+    Valid (nextDate y m d).1 (nextDate y m d).2.1 (nextDate y m d).2.2 := by
+  obtain ⟨hy, hm1, hm2, hd1, hd2, hx⟩ := h
+  unfold nextDate
+  by_cases h1 : y = 1752 ∧ m = 9 ∧ d = 2
+  · rw [if_pos h1]; decide
+  · rw [if_neg h1]
+    by_cases h2 : d < monthLength y m
+    · rw [if_pos h2]; show Valid y m (d + 1); exact ⟨hy, hm1, hm2, by omega, by omega, by omega⟩
+    · rw [if_neg h2]
+      by_cases h3 : m < 12
+      · rw [if_pos h3]
+        show Valid y (m + 1) 1
+        refine ⟨hy, by omega, by omega, by omega, ?_, by omega⟩
+        show 1 ≤ monthLength y (m + 1)
+        rw [monthLength_cases]; split <;> (try split) <;> omega
+      · rw [if_neg h3]
+        show Valid (y + 1) 1 1
+        refine ⟨by omega, by omega, by omega, by omega, ?_, by omega⟩
+        show 1 ≤ monthLength (y + 1) 1
+        rw [monthLength_cases]; split <;> (try split) <;> omega
+
+theorem yearStep (y : Int) :
+    ((1461 * y) / 4 = (1461 * (y - 1)) / 4 + 365 ∧ y % 4 ≠ 0 ∨ (1461 * y) / 4 = (1461 * (y - 1)) / 4 + 366 ∧ y % 4 = 0) ∧
+    (y / 100 = (y - 1) / 100 ∧ y % 100 ≠ 0 ∨ y / 100 = (y - 1) / 100 + 1 ∧ y % 100 = 0) ∧
+    (y / 100 / 4 = (y - 1) / 100 / 4 ∧ y % 400 ≠ 0 ∨ y / 100 / 4 = (y - 1) / 100 / 4 + 1 ∧ y % 400 = 0) := by
+  refine ⟨?_, by omega, by omega⟩
+  have h1 : (1461 * y) / 4 = 1461 * (y / 4) + (1461 * (y % 4)) / 4 := by omega
+  have h2 : (1461 * (y - 1)) / 4 = 1461 * ((y - 1) / 4) + (1461 * ((y - 1) % 4)) / 4 := by omega
+  have : y % 4 = 0 ∨ y % 4 = 1 ∨ y % 4 = 2 ∨ y % 4 = 3 := by omega
+  rcases this with h|h|h|h <;> omega
+
+set_option maxHeartbeats 2000000 in
+theorem dayE_next_month (y m d : Int) (hy : 1 ≤ y) (hm1 : 1 ≤ m) (h3 : m < 12) (hm2' : m ≠ 2) (hd1 : 1 ≤ d)
+    (hd : d = if m = 4 ∨ m = 6 ∨ m = 9 ∨ m = 11 then 30 else 31) (hx : ¬ (y = 1752 ∧ m = 9 ∧ 3 ≤ d ∧ d ≤ 13)) :
+    dayE y (m + 1) 1 = dayE y m d + 1 := by
+  rw [dayE_cases, dayE_cases]
+  have : m = 1 ∨ m = 3 ∨ m = 4 ∨ m = 5 ∨ m = 6 ∨ m = 7 ∨ m = 8 ∨ m = 9 ∨ m = 10 ∨ m = 11 := by omega
+  rcases this with h|h|h|h|h|h|h|h|h|h <;> subst h <;>
+    simp only [Int.reduceAdd, Int.reduceDiv, Int.reduceMod, Int.add_zero, Int.reduceMul, Int.add_sub_cancel] <;>
+    simp (config := {decide := true}) only [if_true, if_false] at hd <;> subst hd <;>
+    split <;> split <;> omega
+
+set_option maxHeartbeats 1000000 in
+theorem dayE_next (y m d : Int) (h : Valid y m d) :
+    dayE (nextDate y m d).1 (nextDate y m d).2.1 (nextDate y m d).2.2 = dayE y m d + 1 := by
+  obtain ⟨hy, hm1, hm2, hd1, hd2, hx⟩ := h
+  unfold nextDate
+  by_cases h1 : y = 1752 ∧ m = 9 ∧ d = 2
+  · rw [if_pos h1]; obtain ⟨rfl, rfl, rfl⟩ := h1; decide
+  · rw [if_neg h1]
+    rw [monthLength_cases] at hd2
+    by_cases h2 : d < monthLength y m
+    · rw [if_pos h2]
+      rw [monthLength_cases] at h2
+      show dayE y m (d + 1) = dayE y m d + 1
+      rw [dayE_cases, dayE_cases]
+      rcases month_cases m hm1 hm2 with h|h|h|h|h|h|h|h|h|h|h|h <;> subst h <;> split <;> split <;> omega
+    · rw [if_neg h2]
+      rw [monthLength_cases] at h2
+      by_cases h3 : m < 12
+      · rw [if_pos h3]
+        show dayE y (m + 1) 1 = dayE y m d + 1
+        by_cases hm2' : m = 2
+        · subst hm2'
+          rw [dayE_cases, dayE_cases]
+          obtain ⟨ha, hb, hc⟩ := yearStep y
+          simp only [Int.reduceAdd, Int.reduceDiv, Int.reduceMod, Int.add_zero, Int.reduceMul, Int.add_sub_cancel]
+          simp only [if_true] at hd2 h2
+          have hgf : (100 * (100 * y + 3) + 1 ≥ 17520914) ↔ (100 * (100 * y + 2) + d ≥ 17520914) := by omega
+          by_cases hg : 100 * (100 * y + 2) + d ≥ 17520914
+          · rw [if_pos (hgf.2 hg), if_pos hg]
+            have hy53 : y ≥ 1753 := by omega
+            rcases ha with ⟨ha, ha'⟩|⟨ha, ha'⟩ <;> rcases hb with ⟨hb, hb'⟩|⟨hb, hb'⟩ <;> rcases hc with ⟨hc, hc'⟩|⟨hc, hc'⟩ <;>
+              split at hd2 <;> split at h2 <;> omega
+          · rw [if_neg (fun h => hg (hgf.1 h)), if_neg hg]
+            have hy52 : y ≤ 1752 := by omega
+            rcases ha with ⟨ha, ha'⟩|⟨ha, ha'⟩ <;> split at hd2 <;> split at h2 <;> omega
+        · rw [if_neg hm2'] at hd2 h2
+          exact dayE_next_month y m d hy hm1 h3 hm2' hd1 (by omega) hx
+      · rw [if_neg h3]
+        show dayE (y + 1) 1 1 = dayE y m d + 1
+        have : m = 12 := by omega
+        subst this
+        rw [dayE_cases, dayE_cases]
+        simp only [Int.reduceAdd, Int.reduceDiv, Int.reduceMod, Int.add_zero, Int.reduceMul, Int.add_sub_cancel]
+        split <;> split <;> omega
+
+/-- every day number from 1 on is the day number of a date of the documented calendar (induction along `nextDate`) -/
+theorem exists_valid (n : Nat) : ∃ y m d, Valid y m d ∧ dayE y m d = (n : Int) + 1 := by
+  induction n with
+  | zero => exact ⟨1, 1, 1, by decide, by decide⟩
+  | succ n ih =>
+    obtain ⟨y, m, d, hv, he⟩ := ih
+    exact ⟨_, _, _, nextDate_valid y m d hv, by rw [dayE_next y m d hv, he]; omega⟩
+
+/-- `date` is the inverse of `day` on all of `s ≥ 1`: its result is a date of the documented calendar whose day number is `s` -/
+theorem dayRaw_dateRaw (s : Int) (hs : 1 ≤ s) :
+    Valid (dateRaw s).1 (dateRaw s).2.1 (dateRaw s).2.2 ∧ dayRaw (dateRaw s).1 (dateRaw s).2.1 (dateRaw s).2.2 = s := by
+  obtain ⟨y, m, d, hv, he⟩ := exists_valid (s - 1).toNat
+  have hs' : dayRaw y m d = s := by rw [dayRaw_eq y m d hv.1 hv.2.1, he]; omega
+  have hd := dateRaw_dayRaw y m d hv
+  rw [hs'] at hd
+  rw [hd]
+  exact ⟨hv, hs'⟩
+
+/-- consecutive day numbers are consecutive dates -/
+theorem dateRaw_succ (s : Int) (hs : 1 ≤ s) :
+    dateRaw (s + 1) = nextDate (dateRaw s).1 (dateRaw s).2.1 (dateRaw s).2.2 := by
+  obtain ⟨hv, he⟩ := dayRaw_dateRaw s hs
+  have hn := nextDate_valid _ _ _ hv
+  have h1 := dayE_next _ _ _ hv
+  rw [← dayRaw_eq _ _ _ hn.1 hn.2.1, ← dayRaw_eq _ _ _ hv.1 hv.2.1, he] at h1
+  have := dateRaw_dayRaw _ _ _ hn
+  rw [h1] at this
+  exact this
+
 end GeoVerif.Calendar
